@@ -48,6 +48,9 @@ def run(ctx):
            "connection's negotiated version, never by the unfiltered Payload::new",
            detail={"unfiltered": [c.where() for c in raw], "filtered": [(c.where(), K.arg_renders(c)[0]) for c in filt]})
 
+    from props.C07 import check_payload_new
+    check_payload_new(ctx, f)
+
     checks = {}
     for meth, reset_flag in (("serial", "0"), ("reset", "1")):
         n = CL + meth + "::{closure#0}"
